@@ -559,6 +559,15 @@ def r23_6(ctx):
             "RandomChoice.state_data/sizes for RandomChoiceGenerator) are dropped from the pickle",
             func=coll,
         )
+    for c, _op in families(repo):
+        hit = repo.class_attr(c, "_pickle_functools_cache")
+        if hit is not None and not isinstance(hit[1], FuncInfo) and hit[0].module.is_unit and const_value(hit[1]) is not True:
+            ctx.finding(
+                rr, f"{c.construct}::_pickle_functools_cache",
+                f"{c.name} resolves _pickle_functools_cache to {unparse(hit[1])} (set in {hit[0].name}): the node is pickled without its cached seeds/chunks, and they are re-derived wherever it is "
+                f"unpickled - under that side's configuration ('auto' chunks) - so the realization can change across a round trip",
+                file=hit[0].module.path, line=hit[1].lineno,
+            )
     for root_name, members in SEED_CONTAINERS.items():
         for c in family(repo, root_name):
             for mname in members:
